@@ -217,9 +217,12 @@ def o_c04(ctx, desc, obs, model, kw):
                                 or not solved.close(r["vin"], vs):
                             # numpy's allclose has a fixed absolute tolerance of 1e-8: when EVERY current of the phase is below it the
                             # exit test passes on the first sweep and the initial guess (0 A for a sleeping stage) is returned (F38)
+                            # exit test passes as soon as a sweep changes every quantity by less than that: the sleep current of a stage
+                            # whose supply came alive in the last sweep is still the previous iterate's (0 A).  Nothing below 1e-8 A is
+                            # exact in what solve() returns (F38); everything else about the row must still be right
                             lim = 1e-8 * len(desc["comps"])
-                            trig = {"below_numpy_atol": bool(r["iin"] == 0.0 and iis < lim and solved.close(r["vin"], vs) and
-                                                             all(abs(x["iin"]) < lim and abs(x["iout"]) < lim for x in p["rows"]))}
+                            trig = {"below_numpy_atol": bool(abs(r["iin"] - iis) < lim and solved.close(r["pwr"], want) and
+                                                             solved.close(r["loss"], want) and solved.close(r["vin"], vs))}
                             ctx.oracle(desc, "sleep_current", k, trig, {"phase": ph, "row": r["name"], "iis": iis, "Iin": r["iin"],
                                        "Power": r["pwr"], "Loss": r["loss"], "Vin": r["vin"], "supply": f, "supply_vout": vs})
                 if k == "source" and (r["iin"] != 0.0 or r["pwr"] != 0.0 or r["loss"] != 0.0):
@@ -249,8 +252,17 @@ def o_c05(ctx, desc, obs, model, kw):
             # liveness decided from the INPUTS of the case only (0 V / phase-inactive elements above), not from the reported rows:
             # an input that is structurally live but reported at 0 V is the fault, not an excuse
             sdead = structural_dead(desc, ph)
+            def brownout_at_or_above(n, depth=0):
+                # a regulator whose drop-out is at least its supply voltage outputs 0 V although nothing is switched off
+                if n is None or depth > len(comps):
+                    return False
+                if comps[n]["kind"] == "linreg" and abs(comps[n]["args"].get("vdrop", 0.0)) >= abs(rows[n]["vin"] or 0.0):
+                    return True
+                if comps[n]["kind"] == "pmux" or not pars[n]:
+                    return False
+                return brownout_at_or_above(pars[n][0], depth + 1)
             for q in ins:
-                brownout = comps[q]["kind"] == "linreg" and abs(comps[q]["args"].get("vdrop", 0.0)) >= abs(rows[q]["vin"] or 0.0)
+                brownout = brownout_at_or_above(q)
                 if not sdead[q] and rows[q]["vout"] == 0.0 and comps[q]["kind"] not in LOADS and not brownout:
                     ctx.oracle(desc, "live_input_reported_dead", "pmux", {"inputs": len(ins)},
                                {"phase": ph, "mux": c["name"], "input": q, "inputs": ins, "input_vout": [rows[x]["vout"] for x in ins],
